@@ -329,7 +329,7 @@ func (v *vcPM) PathObj(name string) *path {
 	v.Barrier()
 	f := reflect.ValueOf(v.pathManager).Elem().FieldByName("paths")
 	if !f.IsValid() || f.Kind() != reflect.Map {
-		panic("harness: pathManager has no 'paths' map any more")
+		panic("VERIF-INCONCLUSIVE: harness: pathManager has no 'paths' map any more")
 	}
 	m := reflect.NewAt(f.Type(), unsafe.Pointer(f.UnsafeAddr())).Elem()
 	e := m.MapIndex(reflect.ValueOf(name))
